@@ -26,7 +26,7 @@ fn agg(rng: &mut Rng) -> String {
     }
 }
 
-fn query(rng: &mut Rng) -> String {
+pub(crate) fn query(rng: &mut Rng) -> String {
     let group: Vec<&str> = match rng.below(4) { 0 => vec![], 1 => vec!["k"], 2 => vec!["w"], _ => vec!["k", "w"] };
     let mut items: Vec<String> = group.iter().map(|g| (*g).to_owned()).collect();
     for _ in 0..rng.below(4) + 1 { items.push(agg(rng)); }
@@ -110,6 +110,9 @@ pub fn run(p: &Params) -> Run {
             _ => run.count("split-error"),
         }
     }
+    // the whole program: statement from raw text, every output format, lines spread over 1-3 files
+    let mut erng = Rng::new(p.seed ^ 0x15e2e);
+    crate::e2e::perm_relation(&mut run, &mut erng, p.n(400, 4000), C04_DEF, &query, &|rng: &mut Rng| gen_typed_input(rng, false));
     run.notes.push("table with TEXT/INT/REAL/BOOLEAN/INTERVAL/TIMESTAMP columns; small INT arguments and REAL arguments whose sums/squares are exact; -0.0 and NaN excluded (they are equal to 0.0 / incomparable but print differently); 1 in 5 inputs has 40-150 lines in one or two groups with 17-65 distinct argument values; permutations: sorted, reversed, 2 shuffles; HAVING as boolean combinations with repeated aggregates".to_owned());
     run
 }
